@@ -229,7 +229,7 @@ struct condition_variable {
         f.notified = false; f.timeout_fired = false; f.timed = timed; f.patience = -1; f.spurious_in = -1;
         {
             uint8_t b = ::vrt::rt().aux_byte();
-            if ((b & 7) == 5) f.spurious_in = b >> 3;            // rare generated spurious wake-up
+            if ((b & 3) == 1) f.spurious_in = (b >> 2) & 15;      // generated spurious wake-up
             else if (timed && b != 0) f.patience = (b >> 3) % 6; // generated time-out
             if (timed && f.patience < 0) f.patience = 80;        // virtual time passes with steps
         }
